@@ -35,6 +35,7 @@ VARIABLE o   \* the observable state: one record with the fields
              \*  pend       [actor -> pending API call or NoCall]
              \*  rtFired, wtFired  read/write timer expiries so far
              \*  submitted  bytes accepted by Write calls that returned nil;  drained: bytes the peer has read
+             \*  writeFailed  a Write/Flush has reported an error: the stream guarantee (C04) ends there
              \*  reqSet     an OnRequest handler is installed
              \*  reqAfterClose  handler invocations started after a Close call returned
              \*  peerPending    bytes in the peer's receive queue at the quiescent point (-1 unknown): 0 means the socket is writable
@@ -58,7 +59,7 @@ InitVal(conn, disc, req, ncb) ==
      closeSeq |-> <<>>, fdCloses |-> 0, slotFrees |-> 0, detached |-> FALSE, inactive |-> FALSE,
      peerClosed |-> FALSE, sent |-> 0, consumed |-> 0, localClose |-> FALSE, closeDone |-> FALSE,
      panicked |-> FALSE, eofFirst |-> FALSE, pend |-> [a \in Actors |-> NoCall], rtFired |-> 0, wtFired |-> 0,
-     submitted |-> 0, drained |-> 0, reqSet |-> req, reqAfterClose |-> 0, peerPending |-> -1]
+     submitted |-> 0, drained |-> 0, writeFailed |-> FALSE, reqSet |-> req, reqAfterClose |-> 0, peerPending |-> -1]
 
 -----------------------------------------------------------------------------
 (* Guards: each returns the set of names of the rules the event violates.   *)
@@ -166,6 +167,7 @@ RetEff(a, api, n, ok, err) ==
               !.closeDone = (@ \/ api \in {"Close", "Detach"}),
               !.consumed = IF api \in {"Next", "Until"} THEN (IF err = "nil" \/ api = "Until" THEN @ + n ELSE @) ELSE @,
               !.submitted = IF api = "Write" /\ err = "nil" THEN @ + o.pend[a].n ELSE @,
+              !.writeFailed = (@ \/ (api = "Write" /\ err # "nil")),
               !.reqSet = (@ \/ api = "SetOnRequest"),
               \* a read that reported end-of-stream before anybody closed locally: the peer's close was seen first
               !.eofFirst = (@ \/ (err = "eof" /\ ~o.localClose))]
